@@ -200,8 +200,10 @@ class LockAnalysis:
                 while isinstance(x, ast.Subscript) or (isinstance(x, ast.Call) and isinstance(x.func, ast.Attribute) and x.func.attr == "get"):
                     x = x.value if isinstance(x, ast.Subscript) else x.func.value
                     depth += 1
-                if depth == 0 or not (isinstance(x, ast.Attribute) and x.attr == field):
+                if not (isinstance(x, ast.Attribute) and x.attr == field):
                     continue
+                if depth == 0:
+                    how = how.replace("of an element", "of the field")
                 base = x.value
                 ok = (isinstance(base, ast.Name) and base.id == "self" and fi.cls is not None and fi.cls.qual in family) or \
                     any(isinstance(t, str) and t in family for t in P.expr_types(fi, base))
